@@ -147,12 +147,26 @@ example : exposed params .pow Cfg.default ⟨false, true, false, false, false⟩
 
 /-- the go/ssa body of rpc.isProtectedMethodName, translated to Lean on every run (`Aqv.Gen.Translated`, regenerated from the
     tree under test), IS the protected-name test `isProtected params` that every theorem above is stated on.  (The string
-    constants in `params` are extracted independently, from the syntax, by the rpcsign extractor: the two must agree.) -/
+    constants in `params` are extracted independently, from the syntax, by the rpcsign extractor: the two must agree.  The proof
+    compares the two sets of names, so reordering the disjuncts or rewriting them as a `switch` keeps it provable.) -/
 theorem isProtectedMethodName_code_is_model :
     Aqv.Gen.Translated.isProtectedMethodName = isProtected params :=
   Aqv.Lemmas.Translated.isProtectedMethodName_translated_eq
 
 example : Aqv.Gen.Translated.isProtectedMethodName "Sign" = true ∧
     Aqv.Gen.Translated.isProtectedMethodName "Accounts" = false := by decide
+
+/-- … so the table fact transfers to the code: on a pow node the translated isProtectedMethodName answers `true` for the Go
+    name of every method that can reach a keystore signing entry point; and the four names protected at the pinned revision
+    (a hand-written list, not regenerated) are still protected by the code as it is now (protecting more is allowed). -/
+theorem pow_signers_are_protected_by_code :
+    (∀ m ∈ signers, m.reachesSignPow = true → Aqv.Gen.Translated.isProtectedMethodName m.goName = true) ∧
+    (∀ n ∈ Aqv.Lemmas.Translated.protectedNamesRef, Aqv.Gen.Translated.isProtectedMethodName n = true) := by
+  refine ⟨fun m hm hs => ?_, Aqv.Lemmas.Translated.isProtectedMethodName_translated_ref⟩
+  rw [isProtectedMethodName_code_is_model]
+  exact (pow_signers_are_protected m hm hs).2
+
+example : ∃ m ∈ signers, m.reachesSignPow = true ∧ m.goName ∈ Aqv.Lemmas.Translated.protectedNamesRef :=
+  ⟨⟨"aqua", "sign", "Sign", "aquaapi.PublicTransactionPoolAPI", false, true, false, false, true, true⟩, by decide, by decide, by decide⟩
 
 end Aqv.Props.C18
